@@ -1430,7 +1430,7 @@ func registerLibModels() {
 		}
 		b := Var(c.freshName("fbits"), SBV(64))
 		// NaN has many encodings; the canonical one is assumed
-		c.addPC(Eq(FPFromBits(b), x))
+		c.assume(Eq(FPFromBits(b), x))
 		return b
 	}
 	m["math.Ldexp"] = func(c *Ctx, fn *ssa.Function, a []Value) Value {
@@ -1462,7 +1462,7 @@ func registerLibModels() {
 			return TupleVal{f, c.goInt(0)}
 		}
 		b := Var(c.freshName("fbits"), SBV(64))
-		c.addPC(Eq(FPFromBits(b), f))
+		c.assume(Eq(FPFromBits(b), f))
 		e := Extract(62, 52, b)
 		c.modelGuard(Not(Eq(e, BVConst64(0, 11))), "math.Frexp of a subnormal is outside the model")
 		fbits := Concat(Concat(Extract(63, 63, b), BVConst64(1022, 11)), Extract(51, 0, b))
@@ -1492,9 +1492,9 @@ func registerLibModels() {
 			special := Or(FPIsNaN(x), FPIsNaN(y), FPIsInf(x), FPEq(y, FPConst(0)))
 			yInf := And(Not(special), FPIsInf(y))
 			normal := And(Not(special), Not(FPIsInf(y)))
-			c.addPC(Or(Not(special), FPIsNaN(m)))
-			c.addPC(Or(Not(yInf), And(Not(FPIsNaN(m)), Eq(m, x))))
-			c.addPC(Or(Not(normal), And(Not(FPIsNaN(m)), Not(FPIsInf(m)), FPLt(FPAbs(m), FPAbs(y)), FPLe(FPAbs(m), FPAbs(x)), Eq(FPIsNeg(m), FPIsNeg(x)))))
+			c.assume(Or(Not(special), FPIsNaN(m)))
+			c.assume(Or(Not(yInf), And(Not(FPIsNaN(m)), Eq(m, x))))
+			c.assume(Or(Not(normal), And(Not(FPIsNaN(m)), Not(FPIsInf(m)), FPLt(FPAbs(m), FPAbs(y)), FPLe(FPAbs(m), FPAbs(x)), Eq(FPIsNeg(m), FPIsNeg(x)))))
 			return m
 		}
 		if c.Ex.Havoc["math.Mod"] {
@@ -1502,6 +1502,79 @@ func registerLibModels() {
 			return c.havocResult(fn)
 		}
 		c.unsupported("math.Mod on symbolic operands (C fmod has no SMT-LIB counterpart)")
+		return nil
+	}
+	// strconv.FormatFloat / ParseFloat. Concrete operands: computed. Symbolic: shortest/correctly
+	// rounded decimal conversion has no SMT counterpart; under "strconv.FormatFloat:contract" the pair
+	// ParseFloat(FormatFloat(f, 'f', prec, 64), 64) - f rounded to prec decimal places - is a fresh value
+	// constrained by what correct rounding implies (below); otherwise havoc if asked for.
+	m["strconv.FormatFloat"] = func(c *Ctx, fn *ssa.Function, a []Value) Value {
+		f := a[0].(*Term)
+		fm, ok1 := c.constInt(a[1].(*Term), false)
+		prec, ok2 := c.constInt(a[2].(*Term), true)
+		bits, ok3 := c.constInt(a[3].(*Term), true)
+		if f.IsConst() && ok1 && ok2 && ok3 {
+			return c.str(strconv.FormatFloat(f.F, byte(fm), int(prec), int(bits)))
+		}
+		if c.Ex.Havoc["strconv.FormatFloat:contract"] && ok1 && fm == 'f' && ok2 && prec >= 0 && ok3 && bits == 64 {
+			c.Ex.noteModel("strconv.FormatFloat(f,'f',prec,64) -> ParseFloat: fresh result constrained by correct rounding to prec places (sign kept, |f| < 0.4*10^-prec gives zero, |f| > 0.6*10^-prec does not, |r-f| <= 0.51*10^-prec + |f|*2^-52, integral f unchanged)")
+			return &StrVal{B: c.str("<float-text>").B, FF: &floatText{F: f, Prec: int(prec)}}
+		}
+		if c.Ex.Havoc["strconv.FormatFloat"] {
+			c.Ex.noteModel("havoc:strconv.FormatFloat")
+			return c.havocResult(fn)
+		}
+		c.unsupported("strconv.FormatFloat on a symbolic float")
+		return nil
+	}
+	m["strconv.ParseFloat"] = func(c *Ctx, fn *ssa.Function, a []Value) Value {
+		s := a[0].(*StrVal)
+		if s.FF != nil {
+			f, prec := s.FF.F, s.FF.Prec
+			key := f.Key() + "|" + strconv.Itoa(prec)
+			if c.fmodCache == nil {
+				c.fmodCache = map[string]*Term{}
+			}
+			r, seen := c.fmodCache["ff|"+key]
+			if !seen {
+				r = Var(c.freshName("rounded"), SFP)
+				c.fmodCache["ff|"+key] = r
+				u := math.Pow(10, float64(-prec)) // 0 when 10^-prec underflows: then every f is "large"
+				af, ar := FPAbs(f), FPAbs(r)
+				finite := And(Not(FPIsNaN(f)), Not(FPIsInf(f)))
+				zero := FPEq(r, FPConst(0))
+				diff := FPAbs(FPSub(r, f))
+				bound := FPAdd(FPConst(0.51*u), FPMul(af, FPConst(math.Ldexp(1, -52))))
+				integral := FPEq(FPRound("RTZ", f), f)
+				c.assume(Or(Not(finite), And(
+					Not(FPIsNaN(r)), Not(FPIsInf(r)),
+					Eq(FPIsNeg(r), FPIsNeg(f)),
+					Or(Not(FPLt(af, FPConst(0.4*u))), zero),
+					Or(Not(FPLt(FPConst(0.6*u), af)), Not(zero)),
+					FPLe(diff, bound),
+					Or(Not(integral), FPEq(r, f)),
+					FPLe(ar, FPAdd(af, FPConst(u))),
+				)))
+				// NaN and infinities print as text that parses back to themselves
+				c.assume(Or(finite, Or(And(FPIsNaN(f), FPIsNaN(r)), Eq(r, f))))
+			}
+			return TupleVal{r, Iface{}}
+		}
+		if cs, ok := s.concrete(); ok {
+			bits, okb := c.constInt(a[1].(*Term), true)
+			if okb {
+				v, err := strconv.ParseFloat(cs, int(bits))
+				if err != nil {
+					return TupleVal{FPConst(v), c.mkError(c.str(err.Error()))}
+				}
+				return TupleVal{FPConst(v), Iface{}}
+			}
+		}
+		if c.Ex.Havoc["strconv.ParseFloat"] {
+			c.Ex.noteModel("havoc:strconv.ParseFloat")
+			return c.havocResult(fn)
+		}
+		c.unsupported("strconv.ParseFloat on symbolic text")
 		return nil
 	}
 	m["math.Pow"] = func(c *Ctx, fn *ssa.Function, a []Value) Value {
